@@ -488,6 +488,43 @@ Theorem C08_target_failure_on_its_own : forall r tg e,
   exists e', startup subclass r = Err e'.
 Proof. exact (target_failure_on_its_own subclass). Qed.
 
+(* ---------------------------------------------------------------------- *)
+(* Default values of __init__ parameters (`gain: float = 1.0`, `encoder:       *)
+(* Encoder = None`; [init_defaults], per component [dd]) are not an input:     *)
+(* every annotated parameter is requested, found under its name or             *)
+(* "<component>_<name>", type-checked -- a default is never used instead.      *)
+(* [startup_dflt subclass dd e r]: start-up when the component classes         *)
+(* declare the defaults dd, in the environment e.                              *)
+(* ---------------------------------------------------------------------- *)
+
+Theorem C08_ctor_defaults_irrelevant : forall dflt dflt' m d inj,
+  create_component_dflt subclass dflt m d inj = create_component_dflt subclass dflt' m d inj.
+Proof. exact (ctor_defaults_irrelevant subclass). Qed.
+
+Theorem C08_startup_defaults_irrelevant : forall dd dd' e e' r,
+  startup_dflt subclass dd e r = startup_dflt subclass dd' e' r.
+Proof. exact (startup_defaults_irrelevant subclass). Qed.
+
+(* whatever the defaults, a started robot passed every constructor parameter
+   the object picked from the robot attributes and the earlier components, an
+   instance of the annotated type (C08_ctor) ... *)
+Theorem C08_ctor_with_defaults : forall dd e r s, startup_dflt subclass dd e r = Ok s ->
+  map (fun c => (cr_name c, cr_def c)) (st_comps s) = components r /\
+  forall before c d after, components r = before ++ (c, d) :: after ->
+    exists kw,
+      nth_error (st_comps s) (List.length before)
+        = Some {| cr_name := c; cr_def := d; cr_kwargs := kw |} /\
+      Forall2 (ctor_arg_ok subclass (injectables_with r before) c)
+              (k_init_hints (c_class d)) kw.
+Proof. exact (ctor_exact_dflt subclass). Qed.
+
+(* ... and a parameter that is private, not annotated with a class, absent
+   under both names or mistyped stops start-up; with class annotations only,
+   with the injection error. *)
+Theorem C08_ctor_fault_fails_with_defaults : forall dd e r, ctor_fault subclass r ->
+  exists err, startup_dflt subclass dd e r = Err err /\ (all_types r -> err = EInject).
+Proof. exact (ctor_fault_fails_dflt subclass). Qed.
+
 End C08.
 
 (* ====================================================================== *)
@@ -911,6 +948,60 @@ Example C08_nv_same_class_unserved_instance_fails :
   setup_vars ex_sub (comp_target "left" (d_arm 106 true)) (all_injectables (arms_robot false true)) = Ok [("gain", o_zero)].
 Proof. repeat split; vm_compute; reflexivity. Qed.
 
+(* `class Arm: def __init__(self, encoder: Sensor = None, gain: int = 1)`:
+   the robot's objects are passed, not the defaults; a gain of the wrong type,
+   a missing encoder, an earlier component called encoder that is no Sensor
+   stop start-up with the injection error whatever the defaults are. *)
+Definition o_default_gain := {| oid := 14; ocls := 1; otruthy := true |}.
+Definition arm_defaults : init_defaults := [("encoder", None); ("gain", Some o_default_gain)].
+Definition k_dflt_arm : classdef :=
+  {| k_cls := 26; k_init_hints := [("encoder", HType 10); ("gain", HType 1)]; k_hints := [];
+     k_preset := [("kept", PParam "gain")]; k_setup := false |}.
+Definition d_dflt_arm := {| c_oid := 108; c_truthy := true; c_class := k_dflt_arm |}.
+Definition d_not_a_sensor :=
+  {| c_oid := 109; c_truthy := true;
+     c_class := {| k_cls := 21; k_init_hints := []; k_hints := []; k_preset := []; k_setup := false |} |}.
+Definition dflt_robot (dir : list rattr) (first : list (name * rhint)) : robot :=
+  {| r_dir := dir; r_hints := first ++ [("arm", RClass d_dflt_arm)]; r_modes := [] |}.
+Definition ra (n : name) (o : obj) := {| ra_name := n; ra_kind := KPlain; ra_value := Some o |}.
+Example C08_nv_default_not_used :
+  startup_dflt ex_sub [("arm", arm_defaults)] env_bench (dflt_robot [ra "encoder" o_gyro; ra "gain" o_zero] [])
+  = Ok {| st_comps := [ {| cr_name := "arm"; cr_def := d_dflt_arm;
+                           cr_kwargs := [("encoder", o_gyro); ("gain", o_zero)] |} ];
+          st_updates := [ (TComp "arm", []) ] |} /\
+  attr_at (dflt_robot [ra "encoder" o_gyro; ra "gain" o_zero] [])
+          [EvCtor "arm" [("encoder", o_gyro); ("gain", o_zero)]] (TComp "arm") "kept" = Is (Some o_zero).
+Proof. split; vm_compute; reflexivity. Qed.
+Example C08_nv_default_is_no_way_around_a_failure :
+  (* gain is a str *)
+  startup_dflt ex_sub [("arm", arm_defaults)] env_bench (dflt_robot [ra "encoder" o_gyro; ra "gain" o_empty] []) = Err EInject /\
+  (* no encoder, no arm_encoder *)
+  startup_dflt ex_sub [("arm", arm_defaults)] env_match (dflt_robot [ra "gain" o_zero] []) = Err EInject /\
+  (* only arm_gain, and that is a str *)
+  startup_dflt ex_sub [("arm", arm_defaults)] env_bench (dflt_robot [ra "arm_gain" o_empty; ra "encoder" o_gyro] []) = Err EInject /\
+  (* an earlier component called encoder that is not a Sensor *)
+  startup_dflt ex_sub [("arm", arm_defaults)] env_bench
+    (dflt_robot [ra "gain" o_zero] [("encoder", RClass d_not_a_sensor)]) = Err EInject /\
+  ctor_fault ex_sub (dflt_robot [ra "encoder" o_gyro; ra "gain" o_empty] []).
+Proof.
+  repeat split; try (vm_compute; reflexivity).
+  exists [], "arm", d_dflt_arm, [], "gain", (HType 1). split; [reflexivity|]. split; [simpl; tauto|].
+  right. intros o H. vm_compute in H. inversion H; subst. reflexivity.
+Qed.
+(* The statements exclude something: the _create_component that resolves
+   defaulted parameters leniently (Proofs.create_component_lenient, NOT the
+   code) constructs the arm from a robot whose gain is a str and which has no
+   encoder -- both parameters left to their defaults --, agrees when the
+   robot's objects are fine, and is the code when nothing declares a default. *)
+Example C08_nv_default_lenient_would_differ :
+  let inj := collect_injectables [ra "gain" o_empty] in
+  create_component_dflt ex_sub arm_defaults "arm" d_dflt_arm inj = Err EInject /\
+  create_component_lenient ex_sub arm_defaults "arm" d_dflt_arm inj = Ok [] /\
+  create_component_lenient ex_sub [] "arm" d_dflt_arm inj = Err EInject /\
+  create_component_lenient ex_sub arm_defaults "arm" d_dflt_arm (collect_injectables [ra "encoder" o_gyro; ra "gain" o_zero])
+    = Ok [("encoder", o_gyro); ("gain", o_zero)].
+Proof. repeat split; vm_compute; reflexivity. Qed.
+
 Print Assumptions C08_attr_exact.
 Print Assumptions C08_attr_exact_modes.
 Print Assumptions C08_injectables_are_attrs_and_all_components.
@@ -954,3 +1045,7 @@ Print Assumptions C08_set_attr_never_written.
 Print Assumptions C08_set_attr_annotation_irrelevant.
 Print Assumptions C08_each_target_on_its_own.
 Print Assumptions C08_target_failure_on_its_own.
+Print Assumptions C08_ctor_defaults_irrelevant.
+Print Assumptions C08_startup_defaults_irrelevant.
+Print Assumptions C08_ctor_with_defaults.
+Print Assumptions C08_ctor_fault_fails_with_defaults.
